@@ -321,6 +321,43 @@ Definition frame_valid (fr : frame_desc) (vs : list value) : bool :=
   (length (fr_spec fr) <=? length vs)%nat && fields_valid ctx0 (all_fields fr) vs.
 End Frames.
 
+(* ---------------------------------------------------------------- Frame._to_other / _upgrade_frame (v2.2 -> v2.3/v2.4) *)
+Definition names_of (fs : list field) : list (list Z) := map f_name fs.
+Fixpoint names_eqb (a b : list (list Z)) : bool :=
+  match a, b with
+  | [], [] => true
+  | x :: a', y :: b' => list_eqb x y && names_eqb a' b'
+  | _, _ => false
+  end.
+(* the _framespec loop: getattr(self, name) for each of the nmand mandatory fields (AttributeError if unset); the
+   _optionalspec loop: copied `if hasattr(self, name)`.  A frame's optional values are a prefix of _optionalspec (they are
+   the tail of the value list), so the copy ends at the first optional field self does not have *)
+Fixpoint copy_fields (self : list field) (vs : list value) (nmand : nat) (fs : list field) : result (list value) :=
+  match fs with
+  | [] => Ok []
+  | f :: r => match field_value self vs (f_name f) with
+              | Some v => rmap (cons v) (copy_fields self vs (Nat.pred nmand) r)
+              | None => match nmand with O => Ok [] | S _ => Raise EAttr end
+              end
+  end.
+(* `other._framespec is not self._framespec` / `other._optionalspec is not self._optionalspec` -> ValueError: identity of
+   the spec lists, modelled as equality of the field names (classes overriding _to_other -- PIC, LNK, RVA -- are not modelled) *)
+Definition to_other (self other : frame_desc) (vs : list value) : result (list value) :=
+  if names_eqb (names_of (fr_spec other)) (names_of (fr_spec self)) &&
+     names_eqb (names_of (fr_opt other)) (names_of (fr_opt self))
+  then copy_fields (all_fields self) vs (length (fr_spec other)) (all_fields other) else Raise EValue.
+(* Frame._upgrade_frame: a three-letter class becomes base(self), base = its first base class; None if that is Frame itself *)
+Definition upgrade_frame (tbl : list frame_desc) (fr : frame_desc) (vs : list value) : result (option (list Z * list value)) :=
+  if zlen (fr_id fr) =? 3 then
+    match fr_bases fr with
+    | b :: _ => match frame_lookup tbl b with
+                | Some base => rmap (fun vs' => Some (fr_id base, vs')) (to_other fr base vs)
+                | None => Ok None
+                end
+    | [] => Ok None
+    end
+  else Ok (Some (fr_id fr, vs)).
+
 (* ---------------------------------------------------------------- decidable composability of a spec list *)
 Definition self_delim (k : prim_kind) : bool :=
   match k with
@@ -373,14 +410,19 @@ Definition as_loaded (v : value) : result loaded :=
    reader: the enclosing frame / tag body has been decoded already *)
 Definition nested_gunsync (ver : Z) (g : bool) : bool := false.
 
+Definition nesting_limit : nat := 16.
+
 Section Tag.
 Variable tbl22 tbl : list frame_desc.
 Variable ver : Z.
 
-(* ID3Tags._read / read_frames with ID3FramesSpec recursion bounded by depth d *)
+(* ID3Tags._read / read_frames with ID3FramesSpec recursion bounded by depth d: tag_read d may open d - 1 further
+   levels of sub-frames.  ID3FramesSpec.read counts the levels in header._nesting and raises SpecError beyond
+   nesting_limit (16); Frame._readData turns that into ID3JunkFrameError, so the frame that would open level 17 is
+   dropped (EMutagen).  The implementation's reader of a whole tag is tag_read (S nesting_limit). *)
 Fixpoint tag_read (d : nat) (gunsync : bool) (data : list Z) : result parsed :=
   match d with
-  | O => Raise EOutOfFuel
+  | O => Raise EMutagen
   | S d' =>
     read_frames (fun x => match tag_read d' (nested_gunsync ver gunsync) x with
                           | Ok p => Ok (VList (map loaded_value (p_frames p)), p_rest p)
@@ -448,4 +490,4 @@ Definition frame_valid_d (d : nat) := frame_valid (tag_write d) (tag_valid d) ve
 End Tag.
 
 (* EXTRACT: frame_read_d frame_write_d save_frame_d from_data_d frame_valid_d tag_read tag_write tag_valid
-   spec_list_ok determine_bpi inflate_stored fr_unsynch_decode fr_unsynch_encode zlib_store frame_lookup *)
+   spec_list_ok determine_bpi inflate_stored fr_unsynch_decode fr_unsynch_encode zlib_store frame_lookup nesting_limit upgrade_frame *)
